@@ -1572,6 +1572,15 @@ theorem tj_result {w : W} (h : TJ w) :
     · intro h; rw [h] at ho; cases ho
     · intro h; rw [h] at ho; cases ho
 
+/-- every signal the property names is in the code's `_PRESERVED_SIGNALS` (re-checked against the table
+extracted from the tree on every run) -/
+theorem must_preserved : ∀ s, mustPreserve s = true → preserved s = true
+  | 0, _ => by decide
+  | 1, _ => by decide
+  | 2, _ => by decide
+  | 3, h => by revert h; decide
+  | s + 4, h => by simp [mustPreserve, sigNames] at h
+
 theorem preservedSame_restore : ∀ (s : Nat) (a c : List Nat), c.length = a.length →
     preservedSame s a (restoreFrom s a c) = true
   | _, [], [], _ => rfl
@@ -1580,7 +1589,9 @@ theorem preservedSame_restore : ∀ (s : Nat) (a c : List Nat), c.length = a.len
   | s, x :: as, y :: cs, h => by
       simp only [restoreFrom, preservedSame, List.headD_cons, List.tail_cons]
       rw [preservedSame_restore (s + 1) as cs (by simpa using h)]
-      cases preserved s <;> simp
+      cases hm : mustPreserve s
+      · simp
+      · simp [must_preserved s hm]
 
 theorem count_leftovers_call (w : W) (x : Lbl) : (leftovers w).count (.call x) = (qlbls w).count x := by
   have h1 : ∀ q : List (DCall (QAct Act)), (q.map fun c => Junk.call c.act.lbl).count (.call x) = (q.map (·.act.lbl)).count x := by
@@ -1938,7 +1949,9 @@ theorem restoreFrom_get : ∀ (s : Nat) (saved cur : List Nat), cur.length = sav
 
 /-- the signals the spinner preserves are SIGINT, SIGTERM and SIGCHLD (table extracted from the code) -/
 theorem C15_preserved_signals : preserved 0 = true ∧ preserved 1 = true ∧ preserved 2 = true ∧
-    sigNames[0]? = some "SIGINT" ∧ sigNames[1]? = some "SIGTERM" ∧ sigNames[2]? = some "SIGCHLD" := by decide
+    sigNames[0]? = some "SIGINT" ∧ sigNames[1]? = some "SIGTERM" ∧ sigNames[2]? = some "SIGCHLD" ∧
+    (∀ s, mustPreserve s = true → preserved s = true) :=
+  ⟨by decide, by decide, by decide, by decide, by decide, by decide, must_preserved⟩
 
 /-- **C15 (clean).**  After every `run` — returned or raised, refused or not: the reactor is not running, holds
 no delayed calls and no selectables, `reactor.stop` is the genuine one and every preserved signal has the
